@@ -35,6 +35,53 @@ fn ops() -> Vec<&'static str> {
     o
 }
 
+/// leaves of the two-level compositions: one or two values per type, plus every "awkward extent" (reversed, negative
+/// start, end past the end) of a slice of each sliceable kind
+pub const COMPOSE_LEAVES: &[&str] = &[
+    "5", "0", "(--1)", "2.5", "\"abé\"", "\"\"", "'ab'", "''", ":a", ":a.b", "(1 2 3)", "(,)", "(:a = 1, 5)", ":k = 1", "(1..2)", "(2..0)", "(--1..1)", "(0..99)", "((1 2) <> (3 4))", "(1 <> 2 <> 3)", "(\"ab\" <> \"c\")", "{ $ }",
+    "()", "(#5)", "$",
+    "((1 2 3 4) <~ 1..2)", "((1 2 3 4) <~ 2..0)", "((1 2 3 4) <~ --1..1)", "((1 2 3 4) <~ 2..99)",
+    "((1 <> 2 <> 3) <~ 0..1)", "((1 <> 2 <> 3) <~ 2..0)", "((1 <> 2 <> 3) <~ --1..1)", "((1 <> 2 <> 3) <~ 1..99)",
+    "(\"aébc\" <~ 1..2)", "(\"aébc\" <~ 2..0)", "(\"aébc\" <~ --1..1)", "(\"aébc\" <~ 2..99)",
+    "('abcd' <~ 1..2)", "('abcd' <~ 2..0)", "('abcd' <~ --1..1)", "('abcd' <~ 2..99)",
+    "(:a.b.c <~ 0..1)", "(:a.b.c <~ 2..0)", "(:a.b.c <~ 1..99)",
+];
+/// operators that build a compound value from two operands
+pub const COMPOSE_BUILD: &[&str] = &["<>", "<~", "=", ",", " ", "..", "~#", "."];
+/// operators that walk into their operands
+pub const COMPOSE_USE: &[&str] = &["==", "!=", "<", "~#", ".", "<~", "<>", "~>", "+", "=", "#="];
+pub const COMPOSE_UNARY: &[&str] = &[".|", "._", "~~"];
+/// partners of the compound value: one representative per type
+pub const COMPOSE_PARTNERS: &[&str] = &["5", "\"ab\"", "'ab'", ":a", "(1 2 3)", "(:a = 1, 5)", "(0..1)", "(1 <> 2 <> 3)", "((1 2 3 4) <~ 1..2)", "((1 <> 2 <> 3) <~ 0..1)", "(#\"\")", "(#(,))", "(#:a)", "(#'')"];
+
+pub fn compose_count() -> u64 {
+    let l = COMPOSE_LEAVES.len() as u64;
+    let level1 = l * l * COMPOSE_BUILD.len() as u64;
+    level1 * (COMPOSE_PARTNERS.len() as u64 * COMPOSE_USE.len() as u64 * 2 + COMPOSE_UNARY.len() as u64 + 1)
+}
+
+/// `(a build b) use c`, `c use (a build b)`, `(a build b) suffix`, `_. (a build b)`
+pub fn compose_program(i: u64) -> String {
+    let l = COMPOSE_LEAVES.len() as u64;
+    let per = COMPOSE_PARTNERS.len() as u64 * COMPOSE_USE.len() as u64 * 2 + COMPOSE_UNARY.len() as u64 + 1;
+    let (x, k) = (i / per, i % per);
+    let b1 = COMPOSE_BUILD[(x % COMPOSE_BUILD.len() as u64) as usize];
+    let r = x / COMPOSE_BUILD.len() as u64;
+    let (a, b) = (COMPOSE_LEAVES[(r / l) as usize], COMPOSE_LEAVES[(r % l) as usize]);
+    let inner = if b1 == " " { format!("({} {})", a, b) } else { format!("({} {} {})", a, b1, b) };
+    let binary = COMPOSE_PARTNERS.len() as u64 * COMPOSE_USE.len() as u64 * 2;
+    if k < binary {
+        let side = k % 2;
+        let u = COMPOSE_USE[((k / 2) % COMPOSE_USE.len() as u64) as usize];
+        let c = COMPOSE_PARTNERS[((k / 2) / COMPOSE_USE.len() as u64) as usize];
+        if side == 0 { format!("{} {} {}", inner, u, c) } else { format!("{} {} {}", c, u, inner) }
+    } else if k - binary < COMPOSE_UNARY.len() as u64 {
+        format!("{} {}", inner, COMPOSE_UNARY[(k - binary) as usize])
+    } else {
+        format!("_. {}", inner)
+    }
+}
+
 fn deep(n: usize, kind: usize) -> String {
     match kind {
         0 => format!("{}5{}", "(".repeat(n), ")".repeat(n)),
@@ -149,12 +196,24 @@ impl Check for C07Check {
             Phase::random("random-operator-expressions", tier.pick(60_000, 2_000_000), 96).with_min_tape(16).with_chunk(1024),
             Phase::random("random-core-asts", tier.pick(40_000, 1_000_000), 160).with_min_tape(24).with_chunk(512),
             Phase::exhaustive("repetition", repetition_programs().len() as u64).with_chunk(16),
+            // quick: every 3rd composition (the index is scrambled by a stride coprime to the space), thorough: all
+            Phase::exhaustive("two-level-compositions", compose_count() / tier.pick(4, 1)).with_chunk(4096),
         ]
     }
     fn run(&self, tier: Tier, phase: usize, input: &Input, ctx: &mut CaseCtx) {
         match (phase, input) {
             (_, Input::Text(s)) => execute_all(s, ctx, 3000),
             (6, Input::Index(i)) => execute_all(&repetition_programs()[*i as usize], ctx, 3000),
+            (7, Input::Index(i)) => {
+                ctx.class("two-level-composition");
+                // quick takes every 4th index, offset by the seed-independent position so that all residues of the
+                // innermost digits (partner, operator, side) occur
+                let j = match tier {
+                    Tier::Quick => *i * 4 + *i % 4,
+                    Tier::Thorough => *i,
+                };
+                execute_all(&compose_program(j.min(compose_count() - 1)), ctx, 2000);
+            }
             (0, Input::Index(i)) => {
                 let p = pool();
                 let o = ops();
